@@ -1,11 +1,14 @@
 /-
   Every state change made by a scheduling cycle is a sequence of a few *primitive* transitions.
-  `Prim c c'` lists them (each is "a successful run of one primitive function"); `Reach` is the
-  reflexive-transitive closure.  The lemmas here show that the pre-passes, the eviction loop,
-  `_find_placements` and `Cell.schedule` only ever move along `Reach` — independently of any
-  particular invariant — so each invariant needs to be proved for the primitives only.
+  `LPrim lab c c'` lists them with a label saying which app (and server) is touched; `LReach P`
+  is a chain of primitives each of whose (pre-state, label) satisfies `P` — `P` records what the
+  caller knows at that point (e.g. "the victim's server is up", "the app is the one being
+  placed").  `Prim`/`Reach` forget the labels.  The lemmas in this file and in `ReachPlace.lean`
+  show that the pre-passes, the eviction loop, `_find_placements` and `Cell.schedule` only move
+  along such chains — independently of any particular invariant — so each invariant is proved
+  for the primitives only.
 -/
-import TmVerif.Sched.Ops
+import TmVerif.Sched.Upd
 
 namespace TmVerif.Sched
 
@@ -23,11 +26,6 @@ theorem pure_ok {α} {a b : α} : (pure a : M α) = .ok b ↔ a = b := by
 theorem orAbort_ok {α} {o : Option α} {msg : String} {a : α} : orAbort o msg = .ok a ↔ o = some a := by
   cases o <;> simp [orAbort]
 
-theorem throw_ok {α} {msg : String} {a : α} : (throw msg : M α) = .ok a ↔ False := by
-  constructor
-  · intro h; cases h
-  · intro h; cases h
-
 theorem throw_bind {α β} (msg : String) (f : α → M β) : ((throw msg : M α) >>= f) = throw msg := rfl
 theorem throw_map {α β} (msg : String) (f : α → β) : (f <$> (throw msg : M α)) = throw msg := rfl
 theorem throw_ne_ok {α} {msg : String} {a : α} : ((throw msg : M α) = .ok a) = False := by
@@ -35,96 +33,7 @@ theorem throw_ne_ok {α} {msg : String} {a : α} : ((throw msg : M α) = .ok a) 
   · intro h; cases h
   · intro h; cases h
 
-/-! ### primitive transitions -/
-
-/-- The primitive state changes of the scheduler. -/
-inductive Prim : Cell → Cell → Prop
-  | put {c c' aid sid l0 b} : serverPut c aid sid l0 = .ok (c', b) → Prim c c'
-  | remove {c c' sid aid} : serverRemove c sid aid = .ok c' → Prim c c'
-  | release {c c' aid} : releaseIdentity c aid = .ok c' → Prim c c'
-  | acquire {c c' aid ch b ch'} : acquireIdentity c aid ch = .ok (c', b, ch') → Prim c c'
-  /-- change of an app's bookkeeping flags / expiry (placement, identity, demand untouched) -/
-  | appMeta {c a a'} : c.app? a.id = some a → a'.id = a.id → a'.server = a.server →
-      a'.identity = a.identity → a'.group = a.group → a'.demand = a.demand → a'.aff = a.aff →
-      a'.limits = a.limits → a'.traits = a.traits → a'.alloc = a.alloc → a'.lease = a.lease →
-      a'.blacklisted = a.blacklisted → a'.schedOnce = a.schedOnce → a'.retention = a.retention →
-      a'.prio = a.prio →
-      Prim c (c.setApp a')
-  /-- `_fix_invalid_placements`: the app's server no longer exists -/
-  | dropDangling {c a sid} : c.app? a.id = some a → a.server = some sid → c.srv? sid = none →
-      Prim c (c.setApp { a with server := none, evicted := true })
-  /-- `_fix_invalid_identities`: the identity is out of range and simply forgotten -/
-  | forgetIdentity {c a k g grp} : c.app? a.id = some a → a.identity = some k → a.group = some g →
-      c.grp? g = some grp → k ≥ grp.count →
-      Prim c (c.setApp { a with identity := none })
-  /-- spread cursors advanced by a search -/
-  | tree {c t} : Prim c { c with tree := t }
-
-/-- Reflexive-transitive closure. -/
-inductive Reach : Cell → Cell → Prop
-  | refl {c} : Reach c c
-  | step {c c' c''} : Reach c c' → Prim c' c'' → Reach c c''
-
-theorem Reach.trans {a b c : Cell} (h1 : Reach a b) (h2 : Reach b c) : Reach a c := by
-  induction h2 with
-  | refl => exact h1
-  | step _ p ih => exact .step ih p
-
-theorem Reach.single {a b : Cell} (p : Prim a b) : Reach a b := .step .refl p
-
-/-- An invariant preserved by every primitive is preserved along `Reach`. -/
-theorem Reach.induct {P : Cell → Prop} (hp : ∀ c c', P c → Prim c c' → P c') {c c' : Cell}
-    (h : Reach c c') (h0 : P c) : P c' := by
-  induction h with
-  | refl => exact h0
-  | step _ p ih => exact hp _ _ ih p
-
-theorem foldlM_reach {α} (f : Cell → α → M Cell) (hf : ∀ c x c', f c x = .ok c' → Reach c c') :
-    ∀ (l : List α) (c c' : Cell), l.foldlM f c = .ok c' → Reach c c' := by
-  intro l
-  induction l with
-  | nil => intro c c' h; simp [List.foldlM, pure_ok] at h; subst h; exact .refl
-  | cons x xs ih =>
-    intro c c' h
-    simp only [List.foldlM, bind_ok] at h
-    obtain ⟨c1, h1, h2⟩ := h
-    exact (hf _ _ _ h1).trans (ih _ _ h2)
-
-/-! ### the composite operations only move along `Reach` -/
-
-theorem serverRemoveAll_reach {c c' sid} (h : serverRemoveAll c sid = .ok c') : Reach c c' := by
-  simp only [serverRemoveAll, bind_ok, orAbort_ok] at h
-  obtain ⟨s, _, h⟩ := h
-  exact foldlM_reach _ (fun _ _ _ hx => Reach.single (.remove hx)) _ _ _ h
-
-theorem serverRestore_reach {c c' aid sid exp b} (h : serverRestore c aid sid exp = .ok (c', b)) :
-    Reach c c' := by
-  simp only [serverRestore, bind_ok, orAbort_ok, pure_ok] at h
-  obtain ⟨a, _, ⟨c1, rc⟩, hput, a1, ha1, h⟩ := h
-  simp only [Prod.mk.injEq] at h
-  obtain ⟨rfl, _⟩ := h
-  refine (Reach.single (.put hput)).step ?_
-  have hid : a1.id = aid := by
-    unfold Cell.app? at ha1
-    have := List.find?_some ha1
-    simpa using this
-  exact .appMeta (a := a1) (by rw [hid]; exact ha1) rfl rfl rfl rfl rfl rfl rfl rfl rfl rfl rfl rfl rfl rfl
-
-theorem serverRenew_reach {c c' aid sid b} (h : serverRenew c aid sid = .ok (c', b)) : Reach c c' := by
-  simp only [serverRenew, bind_ok, orAbort_ok] at h
-  obtain ⟨a, ha, s, _, h⟩ := h
-  have hid : a.id = aid := by
-    unfold Cell.app? at ha
-    have := List.find?_some ha
-    simpa using this
-  split at h
-  · simp only [pure_ok, Prod.mk.injEq] at h
-    obtain ⟨rfl, _⟩ := h
-    exact Reach.single (.appMeta (a := a) (by rw [hid]; exact ha) rfl rfl rfl rfl rfl rfl rfl rfl rfl rfl rfl rfl rfl rfl)
-  · simp only [pure_ok, Prod.mk.injEq] at h
-    obtain ⟨rfl, _⟩ := h
-    exact .refl
-
+/-! ### lookups -/
 
 theorem app?_id {c : Cell} {aid : Nat} {a : App} (h : c.app? aid = some a) : a.id = aid := by
   unfold Cell.app? at h
@@ -144,289 +53,124 @@ theorem srv?_mem {c : Cell} {sid : Nat} {s : Srv} (h : c.srv? sid = some s) : s 
   unfold Cell.srv? at h
   exact List.mem_of_find?_eq_some h
 
-theorem fixInvalidPlacement_reach {c c' aid} (h : fixInvalidPlacement c aid = .ok c') : Reach c c' := by
-  simp only [fixInvalidPlacement, bind_ok, orAbort_ok] at h
-  obtain ⟨a, ha, h⟩ := h
-  have hid := app?_id ha
-  split at h
-  · simp only [pure_ok] at h; subst h; exact .refl
-  · rename_i sid hsrv
-    split at h
-    · rename_i hnone
-      refine (Reach.single (.dropDangling (a := a) (by rw [hid]; exact ha) hsrv hnone)).step ?_
-      exact .release h
-    · rename_i s hs
-      split at h
-      · simp only [bind_ok] at h
-        obtain ⟨c1, h1, h2⟩ := h
-        exact (Reach.single (.remove h1)).step (.release h2)
-      · simp only [pure_ok] at h; subst h; exact .refl
+/-! ### labelled primitive transitions -/
 
-theorem removeRelease_reach (sid : Nat) :
-    ∀ (l : List Nat) (c c' : Cell),
-      l.foldlM (fun c aid => do let c1 ← serverRemove c sid aid; releaseIdentity c1 aid) c = .ok c' →
-      Reach c c' := by
-  apply foldlM_reach
-  intro c x c' h
-  simp only [bind_ok] at h
-  obtain ⟨c1, h1, h2⟩ := h
-  exact (Reach.single (.remove h1)).step (.release h2)
+inductive Lab
+  | put (aid sid : Nat) (l0 ok : Bool)
+  | remove (sid aid : Nat)
+  | release (aid : Nat)
+  | acquire (aid : Nat) (ok : Bool)
+  /-- bookkeeping flags / expiry of an app (placement, identity, static data untouched) -/
+  | appMeta (aid : Nat)
+  /-- ghost `evicted`-dict entry of an app -/
+  | ghost (aid : Nat)
+  | dropDangling (aid : Nat)
+  | forgetIdentity (aid : Nat)
+  | tree
+  | clearEv
+  deriving Repr, DecidableEq
 
-theorem handleInactive_reach {c c' sid} (h : handleInactive c sid = .ok c') : Reach c c' := by
-  simp only [handleInactive, bind_ok, orAbort_ok] at h
-  obtain ⟨s, _, h⟩ := h
-  split at h <;> simp only [bind_ok, pure_ok] at h <;> obtain ⟨l, _, h⟩ := h <;>
-    exact removeRelease_reach sid l c c' h
+/-- The app a label touches. -/
+def Lab.target : Lab → Option Nat
+  | .put a _ _ _ => some a
+  | .remove _ a => some a
+  | .release a => some a
+  | .acquire a _ => some a
+  | .appMeta a => some a
+  | .ghost a => some a
+  | .dropDangling a => some a
+  | .forgetIdentity a => some a
+  | .tree => none
+  | .clearEv => none
 
-theorem handleBlacklisted_reach {c c' aid} (h : handleBlacklisted c aid = .ok c') : Reach c c' := by
-  simp only [handleBlacklisted, bind_ok, orAbort_ok] at h
-  obtain ⟨a, _, h⟩ := h
-  split at h
-  · simp only [pure_ok] at h; subst h; exact .refl
-  · split at h
-    · simp only [bind_ok] at h
-      obtain ⟨c1, h1, h2⟩ := h
-      exact (Reach.single (.remove h1)).step (.release h2)
-    · exact Reach.single (.release h)
+/-- The primitive state changes of the scheduler, labelled. -/
+inductive LPrim : Lab → Cell → Cell → Prop
+  | put {c c' aid sid l0 b} : serverPut c aid sid l0 = .ok (c', b) → LPrim (.put aid sid l0 b) c c'
+  | remove {c c' sid aid} : serverRemove c sid aid = .ok c' → LPrim (.remove sid aid) c c'
+  | release {c c' aid} : releaseIdentity c aid = .ok c' → LPrim (.release aid) c c'
+  | acquire {c c' aid ch b ch'} : acquireIdentity c aid ch = .ok (c', b, ch') → LPrim (.acquire aid b) c c'
+  | appMeta {c a a'} : c.app? a.id = some a → a'.id = a.id → a'.server = a.server →
+      a'.identity = a.identity → a'.group = a.group → a'.demand = a.demand → a'.aff = a.aff →
+      a'.limits = a.limits → a'.traits = a.traits → a'.alloc = a.alloc → a'.lease = a.lease →
+      a'.blacklisted = a.blacklisted → a'.schedOnce = a.schedOnce → a'.retention = a.retention →
+      a'.prio = a.prio → a'.unschedule = a.unschedule →
+      LPrim (.appMeta a.id) c (c.setApp a')
+  | ghost {c a v} : c.app? a.id = some a → LPrim (.ghost a.id) c (c.setApp { a with evFrom := v })
+  | dropDangling {c a sid} : c.app? a.id = some a → a.server = some sid → c.srv? sid = none →
+      LPrim (.dropDangling a.id) c (c.setApp { a with server := none, evicted := true })
+  | forgetIdentity {c a k g grp} : c.app? a.id = some a → a.identity = some k → a.group = some g →
+      c.grp? g = some grp → k ≥ grp.count →
+      LPrim (.forgetIdentity a.id) c (c.setApp { a with identity := none })
+  | tree {c t} : LPrim .tree c { c with tree := t }
+  | clearEv {c} : LPrim .clearEv c { c with apps := c.apps.map (fun a => { a with evFrom := none }) }
 
-theorem fixInvalidIdentity_reach {c c' aid} (h : fixInvalidIdentity c aid = .ok c') : Reach c c' := by
-  simp only [fixInvalidIdentity, bind_ok, orAbort_ok] at h
-  obtain ⟨a, ha, h⟩ := h
-  have hid := app?_id ha
-  split at h
-  · rename_i k g hk hg
-    simp only [bind_ok, orAbort_ok] at h
-    obtain ⟨grp, hgrp, h⟩ := h
-    split at h
-    · rename_i hge
-      have hp : Prim c (c.setApp { a with identity := none }) :=
-        .forgetIdentity (a := a) (by rw [hid]; exact ha) hk hg hgrp hge
-      split at h
-      · exact (Reach.single hp).step (.remove h)
-      · simp only [pure_ok] at h; subst h; exact Reach.single hp
-    · simp only [pure_ok] at h; subst h; exact .refl
-  · simp only [pure_ok] at h; subst h; exact .refl
+/-- Unlabelled primitive. -/
+def Prim (c c' : Cell) : Prop := ∃ lab, LPrim lab c c'
 
-theorem prePasses_reach {c c'} (h : prePasses c = .ok c') : Reach c c' := by
-  simp only [prePasses, bind_ok] at h
-  obtain ⟨c1, h1, c2, h2, c3, h3, h4⟩ := h
-  exact ((foldlM_reach _ (fun _ _ _ hx => fixInvalidPlacement_reach hx) _ _ _ h1).trans
-    (foldlM_reach _ (fun _ _ _ hx => handleInactive_reach hx) _ _ _ h2)).trans
-    ((foldlM_reach _ (fun _ _ _ hx => handleBlacklisted_reach hx) _ _ _ h3).trans
-    (foldlM_reach _ (fun _ _ _ hx => fixInvalidIdentity_reach hx) _ _ _ h4))
+/-- Chains of primitives whose (pre-state, label) pairs satisfy `P`. -/
+inductive LReach (P : Cell → Lab → Prop) : Cell → Cell → Prop
+  | refl {c} : LReach P c c
+  | step {c c' c'' lab} : LReach P c c' → LPrim lab c' c'' → P c' lab → LReach P c c''
 
-theorem cellPut_reach {c c' aid b} (h : cellPut c aid = .ok (c', b)) : Reach c c' := by
-  simp only [cellPut, bind_ok, orAbort_ok] at h
-  obtain ⟨a, _, h⟩ := h
-  split at h
-  · simp only [pure_ok, Prod.mk.injEq] at h
-    obtain ⟨rfl, _⟩ := h
-    exact Reach.single .tree
-  · simp only [bind_ok] at h
-    obtain ⟨⟨c2, rc⟩, hput, h⟩ := h
-    split at h
-    · simp only [throw_bind, throw_ne_ok] at h
-    · simp only [pure_ok, Prod.mk.injEq] at h
-      obtain ⟨h1, _⟩ := h
-      subst h1
-      exact (Reach.single .tree).step (.put hput)
+/-- Reflexive-transitive closure of `Prim`. -/
+inductive Reach : Cell → Cell → Prop
+  | refl {c} : Reach c c
+  | step {c c' c''} : Reach c c' → Prim c' c'' → Reach c c''
 
-theorem evictLoop_reach (aid : Nat) :
-    ∀ (l : List Nat) (c : Cell) (ev) (c' : Cell) (ev'), evictLoop aid l c ev = .ok (c', ev') → Reach c c' := by
-  intro l
+theorem LReach.trans {P} {a b c : Cell} (h1 : LReach P a b) (h2 : LReach P b c) : LReach P a c := by
+  induction h2 with
+  | refl => exact h1
+  | step _ p hp ih => exact .step ih p hp
+
+theorem LReach.single {P} {a b : Cell} {lab} (p : LPrim lab a b) (hp : P a lab) : LReach P a b :=
+  .step .refl p hp
+
+theorem LReach.mono {P Q : Cell → Lab → Prop} (hpq : ∀ c l, P c l → Q c l) {a b : Cell}
+    (h : LReach P a b) : LReach Q a b := by
+  induction h with
+  | refl => exact .refl
+  | step _ p hp ih => exact .step ih p (hpq _ _ hp)
+
+theorem LReach.toReach {P} {a b : Cell} (h : LReach P a b) : Reach a b := by
+  induction h with
+  | refl => exact .refl
+  | step _ p _ ih => exact .step ih ⟨_, p⟩
+
+theorem Reach.trans {a b c : Cell} (h1 : Reach a b) (h2 : Reach b c) : Reach a c := by
+  induction h2 with
+  | refl => exact h1
+  | step _ p ih => exact .step ih p
+
+theorem Reach.single {a b : Cell} (p : Prim a b) : Reach a b := .step .refl p
+
+/-- An invariant preserved by every primitive is preserved along `Reach`. -/
+theorem Reach.induct {P : Cell → Prop} (hp : ∀ c c', P c → Prim c c' → P c') {c c' : Cell}
+    (h : Reach c c') (h0 : P c) : P c' := by
+  induction h with
+  | refl => exact h0
+  | step _ p ih => exact hp _ _ ih p
+
+/-- An invariant preserved by every primitive whose label satisfies `P`. -/
+theorem LReach.induct {P : Cell → Lab → Prop} {I : Cell → Prop}
+    (hp : ∀ c c' lab, I c → P c lab → LPrim lab c c' → I c') {c c' : Cell}
+    (h : LReach P c c') (h0 : I c) : I c' := by
+  induction h with
+  | refl => exact h0
+  | step _ p hpl ih => exact hp _ _ _ ih hpl p
+
+theorem foldlM_lreach {α} {P : Cell → Lab → Prop} (f : Cell → α → M Cell) (l : List α)
+    (hf : ∀ c x c', x ∈ l → f c x = .ok c' → LReach P c c') :
+    ∀ (c c' : Cell), l.foldlM f c = .ok c' → LReach P c c' := by
   induction l with
-  | nil =>
-    intro c ev c' ev' h
-    simp only [evictLoop, pure_ok, Prod.mk.injEq] at h
-    obtain ⟨rfl, _⟩ := h; exact .refl
-  | cons e rest ih =>
-    intro c ev c' ev' h
-    simp only [evictLoop] at h
-    split at h
-    · simp only [pure_ok, Prod.mk.injEq] at h
-      obtain ⟨rfl, _⟩ := h; exact .refl
-    · simp only [bind_ok, orAbort_ok] at h
-      obtain ⟨ea, _, h⟩ := h
-      split at h
-      · exact ih _ _ _ _ h
-      · simp only [bind_ok, orAbort_ok] at h
-        obtain ⟨s, _, h⟩ := h
-        split at h
-        · exact ih _ _ _ _ h
-        · simp only [bind_ok] at h
-          obtain ⟨c1, h1, ⟨c2, rc⟩, h2, h⟩ := h
-          have r12 : Reach c c2 := (Reach.single (.remove h1)).step (.put h2)
-          split at h
-          · simp only [pure_ok, Prod.mk.injEq] at h
-            obtain ⟨rfl, _⟩ := h; exact r12
-          · exact r12.trans (ih _ _ _ _ h)
+  | nil => intro c c' h; simp [List.foldlM, pure_ok] at h; subst h; exact .refl
+  | cons x xs ih =>
+    intro c c' h
+    simp only [List.foldlM, bind_ok] at h
+    obtain ⟨c1, h1, h2⟩ := h
+    exact (hf _ _ _ List.mem_cons_self h1).trans
+      (ih (fun c y c' hy => hf c y c' (List.mem_cons_of_mem _ hy)) _ _ h2)
 
-
-theorem unplacedBranch_reach {c c' a} (h : unplacedBranch c a = .ok c') : Reach c c' := by
-  simp only [unplacedBranch] at h
-  split at h
-  · split at h
-    · simp only [throw_bind, throw_ne_ok] at h
-    · split at h
-      · simp only [throw_bind, throw_ne_ok] at h
-      · simp only [bind_ok] at h
-        obtain ⟨c1, h1, h2⟩ := h
-        exact (Reach.single (.remove h1)).step (.release h2)
-  · simp only [bind_ok, pure_ok] at h
-    obtain ⟨c1, rfl, h2⟩ := h
-    exact Reach.single (.release h2)
-
-theorem renewStep_reach {c c' a r} (h : renewStep c a = .ok (c', r)) : Reach c c' := by
-  simp only [renewStep] at h
-  split at h
-  · simp only [bind_ok, orAbort_ok] at h
-    obtain ⟨sid, _, h⟩ := h
-    split at h
-    · simp only [throw_ne_ok] at h
-    · split at h
-      · simp only [throw_ne_ok] at h
-      · simp only [bind_ok] at h
-        obtain ⟨⟨c1, ok⟩, hr, h⟩ := h
-        have r1 := serverRenew_reach hr
-        split at h
-        · simp only [pure_ok, Prod.mk.injEq] at h
-          obtain ⟨rfl, _⟩ := h; exact r1
-        · simp only [bind_ok, pure_ok, Prod.mk.injEq] at h
-          obtain ⟨c2, h2, rfl, _⟩ := h
-          exact r1.step (.remove h2)
-  · simp only [pure_ok, Prod.mk.injEq] at h
-    obtain ⟨rfl, _⟩ := h; exact .refl
-
-theorem setFlag_prim {c : Cell} {aid : Nat} {a a' : App} (ha : c.app? aid = some a)
-    (h1 : a'.id = a.id) (h2 : a'.server = a.server) (h3 : a'.identity = a.identity)
-    (h4 : a'.group = a.group) (h5 : a'.demand = a.demand) (h6 : a'.aff = a.aff) (h7 : a'.limits = a.limits)
-    (h8 : a'.traits = a.traits) (h9 : a'.alloc = a.alloc) (h10 : a'.lease = a.lease)
-    (h11 : a'.blacklisted = a.blacklisted) (h12 : a'.schedOnce = a.schedOnce)
-    (h13 : a'.retention = a.retention) (h14 : a'.prio = a.prio) : Prim c (c.setApp a') :=
-  .appMeta (a := a) (by rw [app?_id ha]; exact ha) h1 h2 h3 h4 h5 h6 h7 h8 h9 h10 h11 h12 h13 h14
-
-theorem restoreEvicted_reach {st st' aid b} (h : restoreEvicted st aid = .ok (st', b)) :
-    Reach st.cell st'.cell := by
-  simp only [restoreEvicted] at h
-  split at h
-  · simp only [bind_ok, orAbort_ok] at h
-    obtain ⟨a2, _, h⟩ := h
-    split at h
-    · simp only [throw_ne_ok] at h
-    · simp only [bind_ok] at h
-      obtain ⟨⟨c3, rc⟩, hr, h⟩ := h
-      have r1 := serverRestore_reach hr
-      split at h
-      · simp only [bind_ok, orAbort_ok, pure_ok, Prod.mk.injEq] at h
-        obtain ⟨a3, ha3, rfl, _⟩ := h
-        exact r1.step (setFlag_prim ha3 rfl rfl rfl rfl rfl rfl rfl rfl rfl rfl rfl rfl rfl rfl)
-      · simp only [pure_ok, Prod.mk.injEq] at h
-        obtain ⟨rfl, _⟩ := h; exact r1
-  · simp only [pure_ok, Prod.mk.injEq] at h
-    obtain ⟨rfl, _⟩ := h; exact .refl
-
-theorem tryPlace_reach {revq st st' aid restore} (h : tryPlace revq st aid restore = .ok st') :
-    Reach st.cell st'.cell := by
-  simp only [tryPlace, bind_ok, orAbort_ok] at h
-  obtain ⟨a2, _, ⟨c3, placed⟩, hput, ⟨c4, ev⟩, hev, a4, _, h⟩ := h
-  have r1 := cellPut_reach hput
-  have r2 : Reach c3 c4 := by
-    split at hev
-    · simp only [pure_ok, Prod.mk.injEq] at hev
-      obtain ⟨rfl, _⟩ := hev; exact .refl
-    · exact evictLoop_reach _ _ _ _ _ _ hev
-  have r12 := r1.trans r2
-  split at h
-  · simp only [pure_ok] at h; subst h; exact r12
-  · split at h
-    · simp only [bind_ok, orAbort_ok, pure_ok] at h
-      obtain ⟨⟨c5, rc⟩, hr, a5, ha5, rfl⟩ := h
-      exact (r12.trans (serverRestore_reach hr)).step
-        (setFlag_prim ha5 rfl rfl rfl rfl rfl rfl rfl rfl rfl rfl rfl rfl rfl rfl)
-    · simp only [bind_ok, pure_ok] at h
-      obtain ⟨c5, hrel, rfl⟩ := h
-      exact r12.step (.release hrel)
-
-theorem afterAcquire_reach {revq st st' aid restore} (h : afterAcquire revq st aid restore = .ok st') :
-    Reach st.cell st'.cell := by
-  simp only [afterAcquire, bind_ok] at h
-  obtain ⟨⟨st1, done⟩, hre, h⟩ := h
-  have r1 := restoreEvicted_reach hre
-  split at h
-  · simp only [pure_ok] at h; subst h; exact r1
-  · simp only [bind_ok, orAbort_ok] at h
-    obtain ⟨a2, _, h⟩ := h
-    split at h
-    · simp only [bind_ok, pure_ok] at h
-      obtain ⟨c3, hrel, rfl⟩ := h
-      exact r1.step (.release hrel)
-    · split at h
-      · simp only [bind_ok, pure_ok] at h
-        obtain ⟨c3, hrel, rfl⟩ := h
-        exact r1.step (.release hrel)
-      · exact r1.trans (tryPlace_reach h)
-
-theorem placeOne_reach {revq st st' q} (h : placeOne revq st q = .ok st') : Reach st.cell st'.cell := by
-  simp only [placeOne, bind_ok, orAbort_ok] at h
-  obtain ⟨a, _, h⟩ := h
-  split at h
-  · simp only [pure_ok] at h; subst h; exact .refl
-  · split at h
-    · simp only [bind_ok, pure_ok] at h
-      obtain ⟨c2, h2, rfl⟩ := h
-      exact unplacedBranch_reach h2
-    · simp only [bind_ok, orAbort_ok] at h
-      obtain ⟨⟨c1, restore⟩, hrn, a1, ha1, h⟩ := h
-      have r1 := renewStep_reach hrn
-      have r2 : Reach st.cell (c1.setApp { a1 with renew := false }) :=
-        r1.step (setFlag_prim ha1 rfl rfl rfl rfl rfl rfl rfl rfl rfl rfl rfl rfl rfl rfl)
-      split at h
-      · split at h
-        · simp only [throw_ne_ok] at h
-        · split at h
-          · simp only [throw_ne_ok] at h
-          · simp only [pure_ok] at h; subst h; exact r2
-      · simp only [bind_ok] at h
-        obtain ⟨⟨c2, got, ch⟩, hacq, h⟩ := h
-        have r3 : Reach st.cell c2 := r2.step (.acquire hacq)
-        split at h
-        · simp only [pure_ok] at h; subst h; exact r3
-        · exact r3.trans (afterAcquire_reach h)
-
-theorem findPlacements_reach {c c' q ch ch'} (h : findPlacements c q ch = .ok (c', ch')) : Reach c c' := by
-  simp only [findPlacements, bind_ok, pure_ok, Prod.mk.injEq] at h
-  obtain ⟨st, hf, rfl, _⟩ := h
-  have : ∀ (l : List (Nat × Bool)) (s s' : PState),
-      l.foldlM (placeOne (q.map (·.1)).reverse) s = .ok s' → Reach s.cell s'.cell := by
-    intro l
-    induction l with
-    | nil => intro s s' h; simp [List.foldlM, pure_ok] at h; subst h; exact .refl
-    | cons x xs ih =>
-      intro s s' h
-      simp only [List.foldlM, bind_ok] at h
-      obtain ⟨s1, h1, h2⟩ := h
-      exact (placeOne_reach h1).trans (ih _ _ h2)
-  exact this _ _ _ hf
-
-theorem schedule_reach {c c' qs ch} (h : schedule c qs ch = .ok c') : Reach c c' := by
-  simp only [schedule, bind_ok] at h
-  obtain ⟨c1, hpre, ⟨c2, rest⟩, hf, h⟩ := h
-  have r1 := prePasses_reach hpre
-  have : ∀ (l : List (List (Nat × Bool))) (p p' : Cell × List Nat),
-      l.foldlM (fun (p : Cell × List Nat) q => findPlacements p.1 q p.2) p = .ok p' → Reach p.1 p'.1 := by
-    intro l
-    induction l with
-    | nil => intro p p' h; simp [List.foldlM, pure_ok] at h; subst h; exact .refl
-    | cons x xs ih =>
-      intro p p' h
-      simp only [List.foldlM, bind_ok] at h
-      obtain ⟨⟨c3, ch3⟩, h1, h2⟩ := h
-      exact (findPlacements_reach h1).trans (ih _ _ h2)
-  have r2 := this _ _ _ hf
-  split at h
-  · simp only [throw_bind, throw_ne_ok] at h
-  · simp only [pure_ok, bind_ok] at h
-    obtain ⟨_, _, rfl⟩ := h
-    exact r1.trans r2
+/-- Anything goes. -/
+def AnyLab : Cell → Lab → Prop := fun _ _ => True
 
 end TmVerif.Sched
